@@ -24,8 +24,8 @@ for p in "$@"; do
   res="$res $p:rc=$rc:$cl"
 done
 mkdir -p /verif/seeded/$id
-cp "$src/patch.diff" "$src/demo.py" /verif/seeded/$id/
-[ -f "$src/notes.md" ] && cp "$src/notes.md" /verif/seeded/$id/
+[ "$src" = "/verif/seeded/$id" ] || cp "$src/patch.diff" "$src/demo.py" /verif/seeded/$id/
+[ "$src" != "/verif/seeded/$id" ] && [ -f "$src/notes.md" ] && cp "$src/notes.md" /verif/seeded/$id/
 cat > /verif/seeded/$id/result.txt <<EOT
 demo_clean_rc=$rc_clean demo_patched_rc=$rc_patched tests="$tests"
 checks(scale=$scale):$res
